@@ -118,7 +118,7 @@ theorem createEntry_write_set (c : Cfg) (v : Nat) (dir : Blk) (name : Bytes) (s 
   · apply Post.bind; apply get1FreeBlock_spec
     · exact Post.pure _ _ _ _ ⟨[], rfl, Or.inl rfl, rfl⟩
     · intro b s1 ht
-      obtain ⟨h2, hfree, _, _, _, hd1, hw1, hc1⟩ := ht
+      obtain ⟨h2, hfree, _, _, _, hd1, hw1, hc1, _⟩ := ht
       simp only
       apply Post.bind; apply Post.now
       have hkey := dirKey_stamped (c.vol v) dir (hashName (useIntl (c.vol v).dosType) name) b s1.clock hh
@@ -172,7 +172,7 @@ theorem createEntry_write_set (c : Cfg) (v : Nat) (dir : Blk) (name : Bytes) (s 
       apply Post.bind; apply get1FreeBlock_spec
       · exact Post.pure _ _ _ _ ⟨[], by rw [hq1.2.2]; rfl, Or.inl rfl, hc1⟩
       · intro b s2 ht
-        obtain ⟨h2, hfree, _, _, _, _, hw2, hc2⟩ := ht
+        obtain ⟨h2, hfree, _, _, _, _, hw2, hc2, _⟩ := ht
         rw [hq1.2.1] at hfree
         simp only
         have hlink : ∀ fix st, EntryFix fix → IsCreateLinkWr c s.disk v dir b
@@ -245,11 +245,18 @@ def CreateWrites (c : Cfg) (disk : Std.HashMap Nat Bytes) (v : Nat) (parent : Bl
   W = [] ∨ ∃ b link rest, W = rest ++ [link] ∧ IsCreateLinkWr c disk v parent b link ∧ (link.status ≠ 0 → rest = []) ∧
     (rest = [] ∨ ∃ nw bm, rest = bm ++ [nw] ∧ IsNewBlockWr c v tbl b nw ∧ (nw.status ≠ 0 → bm = []) ∧ BmOrder c v bm)
 
-theorem createFile_write_set (c : Cfg) (v nParent : Nat) (name : Bytes) (s : St)
+/-- the device writes of the first half of `adfCreateFile` (`createFileLink`), newest first -/
+def CreateLinkW (c : Cfg) (disk : Std.HashMap Nat Bytes) (v : Nat) (parent : Blk) (tbl : List Blk) : Bool → List Ev → Prop
+  | false, W => W = [] ∨ ∃ b link rest, W = rest ++ [link] ∧ IsCreateLinkWr c disk v parent b link ∧ (link.status ≠ 0 → rest = []) ∧
+      (rest = [] ∨ ∃ nw, rest = [nw] ∧ IsNewBlockWr c v tbl b nw)
+  | true, W => ∃ b link nw, W = [nw, link] ∧ IsCreateLinkWr c disk v parent b link ∧ link.status = 0 ∧
+      IsNewBlockWr c v tbl b nw ∧ nw.status = 0
+
+theorem createFileLink_write_set (c : Cfg) (v nParent : Nat) (name : Bytes) (s : St)
     (hnc : isDIRCACHE (c.vol v).dosType = false) :
-    Post AnyFault c (createFile v nParent name) s (fun _ s' => ∃ W, writesOf s'.trace = W ++ writesOf s.trace ∧
-      CreateWrites c s.disk v (blkOfBytes ((s.sector (vsect c v nParent)).take 512)) (s.mem.vol v).bitmapTable W) := by
-  unfold createFile
+    Post AnyFault c (createFileLink v nParent name) s (fun r s' => ∃ W, writesOf s'.trace = W ++ writesOf s.trace ∧
+      CreateLinkW c s.disk v (blkOfBytes ((s.sector (vsect c v nParent)).take 512)) (s.mem.vol v).bitmapTable r.2.2.isSome W) := by
+  unfold createFileLink
   apply Post.bind; apply Post.getVolCfg
   apply Post.bind; apply readEntryBlock_full
   intro rc parent s1 hm _ hd hw hdata
@@ -281,8 +288,7 @@ theorem createFile_write_set (c : Cfg) (v nParent : Nat) (name : Bytes) (s : St)
       apply Post.pure
       simp only
       rcases hw3 with ⟨hw3, hne⟩ | ⟨st, hw3, hst3⟩
-      · -- the write did not reach the device (read-only volume / out of range): only the link write happened
-        rw [if_pos hne]
+      · rw [if_pos hne]
         apply Post.pure
         exact ⟨[e], by rw [hw3, hW, hWe, hw], Or.inr ⟨nSect, e, [], rfl, hl, fun _ => rfl, Or.inl rfl⟩⟩
       · obtain ⟨dat, hdat⟩ : ∃ dat, writesOf s3.trace = Ev.wr (some v) (vsect c v nSect) 512 dat st :: writesOf s2.trace := ⟨_, hw3⟩
@@ -294,17 +300,42 @@ theorem createFile_write_set (c : Cfg) (v nParent : Nat) (name : Bytes) (s : St)
           apply Post.pure
           exact ⟨[Ev.wr (some v) (vsect c v nSect) 512 dat st, e], by rw [hdat, hW, hWe, hw]; rfl,
             Or.inr ⟨nSect, e, [Ev.wr (some v) (vsect c v nSect) 512 dat st], rfl, hl, fun h => absurd hst h,
-              Or.inr ⟨_, [], rfl, hnew, fun _ => rfl, Or.inl rfl⟩⟩⟩
+              Or.inr ⟨_, rfl, hnew⟩⟩⟩
         · rw [if_neg hrc3]
-          apply Post.bind
-          refine Post.mono _ _ _ _ _ (updateBitmap_order c v s3) ?_
-          rintro rcb s4 ⟨Wb, hWb, hbo⟩
           apply Post.pure
-          refine ⟨Wb ++ [Ev.wr (some v) (vsect c v nSect) 512 dat st, e], by rw [hWb, hdat, hW, hWe, hw]; simp,
-            Or.inr ⟨nSect, e, Wb ++ [Ev.wr (some v) (vsect c v nSect) 512 dat st], by simp, hl, fun h => absurd hst h,
-              Or.inr ⟨_, Wb, rfl, hnew, ?_, hbo⟩⟩⟩
-          intro h
-          exact absurd (hst3.mp (Classical.not_not.mp hrc3)) h
+          exact ⟨[Ev.wr (some v) (vsect c v nSect) 512 dat st, e], by rw [hdat, hW, hWe, hw]; rfl,
+            nSect, e, _, rfl, hl, hst, hnew, hst3.mp (Classical.not_not.mp hrc3)⟩
+
+theorem createFile_write_set (c : Cfg) (v nParent : Nat) (name : Bytes) (s : St)
+    (hnc : isDIRCACHE (c.vol v).dosType = false) :
+    Post AnyFault c (createFile v nParent name) s (fun _ s' => ∃ W, writesOf s'.trace = W ++ writesOf s.trace ∧
+      CreateWrites c s.disk v (blkOfBytes ((s.sector (vsect c v nParent)).take 512)) (s.mem.vol v).bitmapTable W) := by
+  unfold createFile
+  apply Post.bind; apply Post.getVolCfg
+  apply Post.bind
+  refine Post.mono _ _ _ _ _ (createFileLink_write_set c v nParent name s hnc) ?_
+  rintro ⟨rc, fhdr, cont⟩ s1 ⟨W, hW, hL⟩
+  cases cont with
+  | none =>
+    apply Post.pure
+    simp only [Option.isSome_none] at hL
+    rcases hL with h0 | ⟨b, link, rest, hWr, hl, hst, hrest⟩
+    · exact ⟨W, hW, Or.inl h0⟩
+    · refine ⟨W, hW, Or.inr ⟨b, link, rest, hWr, hl, hst, ?_⟩⟩
+      rcases hrest with h0 | ⟨nw, hr, hn⟩
+      · exact Or.inl h0
+      · exact Or.inr ⟨nw, [], by rw [hr]; rfl, hn, fun _ => rfl, Or.inl rfl⟩
+  | some parent =>
+    simp only [Option.isSome_some] at hL
+    obtain ⟨b, link, nw, hWr, hl, hst, hn, hnst⟩ := hL
+    dsimp only
+    simp only [hnc, Bool.false_eq_true, if_false]
+    apply Post.bind
+    refine Post.mono _ _ _ _ _ (updateBitmap_order c v s1) ?_
+    rintro rcb s4 ⟨Wb, hWb, hbo⟩
+    apply Post.pure
+    refine ⟨Wb ++ [nw, link], by rw [hWb, hW, hWr]; simp, Or.inr ⟨b, link, Wb ++ [nw], by simp, hl, fun h => absurd hst h,
+      Or.inr ⟨nw, Wb, rfl, hn, fun h => absurd hnst h, hbo⟩⟩⟩
 
 theorem createDir_write_set (c : Cfg) (v nParent : Nat) (name : Bytes) (s : St)
     (hnc : isDIRCACHE (c.vol v).dosType = false) :
